@@ -3,7 +3,8 @@
 use std::collections::{HashMap, HashSet};
 use std::fs;
 use std::path::{Path, PathBuf};
-use std::sync::Arc;
+use std::sync::atomic::{AtomicU64, Ordering};
+use std::sync::{Arc, Mutex};
 use tokio::sync::RwLock;
 
 use tower_lsp::jsonrpc::Result;
@@ -35,6 +36,11 @@ pub struct DocumentState {
 pub struct IncanLanguageServer {
     client: Client,
     documents: Arc<RwLock<HashMap<Url, DocumentState>>>,
+    /// Ticket of the most recently *received* open/change notification per document (no entry once the
+    /// document has been closed). It is set synchronously when a notification handler starts, so an analysis
+    /// that finishes late can tell that it has been superseded and must not overwrite newer state.
+    latest: Arc<Mutex<HashMap<Url, u64>>>,
+    next_ticket: Arc<AtomicU64>,
 }
 
 impl IncanLanguageServer {
@@ -42,11 +48,43 @@ impl IncanLanguageServer {
         Self {
             client,
             documents: Arc::new(RwLock::new(HashMap::new())),
+            latest: Arc::new(Mutex::new(HashMap::new())),
+            next_ticket: Arc::new(AtomicU64::new(0)),
+        }
+    }
+
+    /// Register a newly received open/change notification for `uri` and return its ticket.
+    fn begin_update(&self, uri: &Url) -> u64 {
+        let ticket = self.next_ticket.fetch_add(1, Ordering::SeqCst);
+        let mut latest = self.latest.lock().unwrap_or_else(|e| e.into_inner());
+        latest.insert(uri.clone(), ticket);
+        ticket
+    }
+
+    /// Register a received close notification for `uri`.
+    fn begin_close(&self, uri: &Url) {
+        let mut latest = self.latest.lock().unwrap_or_else(|e| e.into_inner());
+        latest.remove(uri);
+    }
+
+    /// The ticket of the newest open/change received for `uri`, if the document is open.
+    fn latest_ticket(&self, uri: &Url) -> Option<u64> {
+        let latest = self.latest.lock().unwrap_or_else(|e| e.into_inner());
+        latest.get(uri).copied()
+    }
+
+    /// Store the analysed state of a document unless a newer notification for it has arrived meanwhile.
+    async fn store_document(&self, uri: &Url, state: DocumentState, ticket: u64) {
+        let mut docs = self.documents.write().await;
+        if self.latest_ticket(uri) == Some(ticket) {
+            #[cfg(incan_verif)]
+            crate::lsp::verif_hooks::log(format!("store {uri} {}", state.version));
+            docs.insert(uri.clone(), state);
         }
     }
 
     /// Analyze a document and publish diagnostics
-    async fn analyze_document(&self, uri: &Url, source: &str, version: i32) {
+    async fn analyze_document(&self, uri: &Url, source: &str, version: i32, ticket: u64) {
         let mut diagnostics = Vec::new();
 
         // Step 1: Lex
@@ -57,6 +95,15 @@ impl IncanLanguageServer {
                 for error in &errors {
                     diagnostics.push(compile_error_to_diagnostic(error, source, uri));
                 }
+                // Keep the text of this version (without an AST) so that hover/definition/completion do not
+                // keep answering from an older version of the document.
+                let state = DocumentState {
+                    source: source.to_string(),
+                    ast: None,
+                    version,
+                    const_types: HashMap::new(),
+                };
+                self.store_document(uri, state, ticket).await;
                 self.client
                     .publish_diagnostics(uri.clone(), diagnostics, Some(version))
                     .await;
@@ -72,6 +119,15 @@ impl IncanLanguageServer {
                 for error in &errors {
                     diagnostics.push(compile_error_to_diagnostic(error, source, uri));
                 }
+                // Keep the text of this version (without an AST) so that hover/definition/completion do not
+                // keep answering from an older version of the document.
+                let state = DocumentState {
+                    source: source.to_string(),
+                    ast: None,
+                    version,
+                    const_types: HashMap::new(),
+                };
+                self.store_document(uri, state, ticket).await;
                 self.client
                     .publish_diagnostics(uri.clone(), diagnostics, Some(version))
                     .await;
@@ -105,21 +161,14 @@ impl IncanLanguageServer {
             }
         }
 
-        // Store AST for hover/goto
-        {
-            let mut docs = self.documents.write().await;
-            #[cfg(incan_verif)]
-            crate::lsp::verif_hooks::log(format!("store {uri} {version}"));
-            docs.insert(
-                uri.clone(),
-                DocumentState {
-                    source: source.to_string(),
-                    ast: Some(ast),
-                    version,
-                    const_types,
-                },
-            );
-        }
+        // Store AST for hover/goto (unless a newer version or a close has been received meanwhile)
+        let state = DocumentState {
+            source: source.to_string(),
+            ast: Some(ast),
+            version,
+            const_types,
+        };
+        self.store_document(uri, state, ticket).await;
 
         // Publish diagnostics (even if empty, to clear old ones)
         self.client
@@ -497,7 +546,8 @@ impl LanguageServer for IncanLanguageServer {
         #[cfg(incan_verif)]
         crate::lsp::verif_hooks::log(format!("recv open {uri} {version}"));
 
-        self.analyze_document(&uri, &source, version).await;
+        let ticket = self.begin_update(&uri);
+        self.analyze_document(&uri, &source, version, ticket).await;
     }
 
     async fn did_change(&self, params: DidChangeTextDocumentParams) {
@@ -508,7 +558,8 @@ impl LanguageServer for IncanLanguageServer {
 
         // We use FULL sync, so there's only one change with the full content
         if let Some(change) = params.content_changes.into_iter().next() {
-            self.analyze_document(&uri, &change.text, version).await;
+            let ticket = self.begin_update(&uri);
+            self.analyze_document(&uri, &change.text, version, ticket).await;
         }
     }
 
@@ -517,11 +568,15 @@ impl LanguageServer for IncanLanguageServer {
         #[cfg(incan_verif)]
         crate::lsp::verif_hooks::log(format!("recv close {uri}"));
 
-        // Remove document from cache
+        // Remove document from cache (unless it has been re-opened while we waited for the lock)
+        self.begin_close(&uri);
         let mut docs = self.documents.write().await;
-        #[cfg(incan_verif)]
-        crate::lsp::verif_hooks::log(format!("remove {uri}"));
-        docs.remove(&uri);
+        if self.latest_ticket(&uri).is_none() {
+            #[cfg(incan_verif)]
+            crate::lsp::verif_hooks::log(format!("remove {uri}"));
+            docs.remove(&uri);
+        }
+        drop(docs);
 
         // Clear diagnostics
         self.client.publish_diagnostics(uri, vec![], None).await;
